@@ -9,6 +9,11 @@ import glob
 for _f in sorted(glob.glob('/verif/tools/manifest.d/*.py')):
     exec(open(_f).read())
 
+# only checks that have been run to completion on the current tree by the maintainer are claimed
+_ready = set(open('/verif/tools/manifest_ready.txt').read().split())
+for _pid in list(CHECKS):
+    if _pid not in _ready:
+        del CHECKS[_pid]
 for pid in ['C%02d' % i for i in range(1, 21)]:
     if pid not in CHECKS and pid not in NA:
         NA[pid] = 'not claimed yet: the specification and conformance harness for this property are still being built (see DESIGN.md §10 build order)'
